@@ -28,7 +28,7 @@ HEX64 = re.compile(r"^[0-9a-f]{64}$")
 # ------------------------------------------------------------------------------------------
 # the property, from its text, on what the host received
 # ------------------------------------------------------------------------------------------
-def prop_c05(case, upstream_headers, now_t):
+def prop_c05(case, upstream_headers, now_t, answered_t=None):
     """case: what the client sent and who it is; upstream_headers: [(lower name, value)] the host received.
     Returns None or a description of the violation."""
     claims = rc.values(upstream_headers, CLAIMS)
@@ -48,6 +48,11 @@ def prop_c05(case, upstream_headers, now_t):
             dates[0], " (it is a value the client supplied)" if dates[0] in sent_dates else "")
     if dates[0] in sent_dates:
         return "the date header %r is a value the client supplied" % dates[0]
+    if answered_t is not None and abs(t - answered_t) > 3:
+        # the Date header hyper's server put on the proxy's answer to this very request: the same clock, read within
+        # milliseconds of the request
+        return "the date header %r is not the proxy's current time: the proxy answered this request at %s" % (
+            dates[0], rc.rfc1123(answered_t))
     signs = case["key"] is not None and case["key_is_hex"] and not rc.is_exempt(case["method"], case["target"])
     if signs:
         auths = rc.values(upstream_headers, AUTH)
@@ -149,6 +154,36 @@ def gen_key(rng):
     return {"guid": guid, "key": "not-hex-" + "z" * 8}        # compute_signature fails: the request goes out unsigned
 
 
+def prop_c05_fresh(prev_host_date, host_date, prev_answered_t, answered_t):
+    """two consecutive requests of one keep-alive connection: when the proxy answered them >= 2 s apart, the date it stamped on the
+    second must be later than the one on the first ("the date is the proxy's current time", not the connection's)"""
+    a, b = rc.parse_rfc1123(prev_host_date), rc.parse_rfc1123(host_date)
+    if None in (a, b, prev_answered_t, answered_t) or answered_t - prev_answered_t < 2:
+        return None
+    if b <= a:
+        return ("two requests of one keep-alive connection answered %d s apart (%s, %s) reached the host with the dates %r and %r: "
+                "the second is not the proxy's current time" % (answered_t - prev_answered_t, rc.rfc1123(prev_answered_t),
+                                                                 rc.rfc1123(answered_t), prev_host_date, host_date))
+    return None
+
+
+def answered_at(results, c):
+    try:
+        raw = results[c["scenario"]]["connections"][c["conn"]]["responses"][c["req"]]["raw"]
+    except (IndexError, KeyError, TypeError):
+        return None
+    m = e2e.parse_http(raw)
+    d = m["header"]("date") if m else []
+    return rc.parse_rfc1123(d[0]) if len(d) == 1 else None
+
+
+def by_name(headers):
+    d = {}
+    for k, v in headers:
+        d.setdefault(k, []).append(v)
+    return d
+
+
 def case_request(c):
     return e2e.http_request(c["method"], c["target"], c["headers"], body=c["body"])
 
@@ -189,6 +224,19 @@ def run(ctx):
                 reqs = [e2e.req(reqs[0], ops_after=[{"op": "sleep_ms", "ms": 40}]), case_request(c2)]
             conns.append(e2e.conn(reqs, audit=e2e.audit(c["dest"], uid=c["uid"], is_admin=c["is_admin"])))
         scenarios.append(e2e.scenario("c05-%d" % s, conns, key=key, replies=replies))
+    # keep-alive connections whose requests are separated by a pause: every request must carry the time of THAT request
+    for s in range(n_scen, n_scen + (2 if ctx.quick else 8)):
+        key = gen_key(rng)
+        conns = []
+        for i in range(4):
+            a = gen_case(rng, now_t, key, "t%d-%d" % (s, i))
+            b = gen_case(rng, now_t, key, "t%d-%d-b" % (s, i), hop=rng.random() < 0.3)
+            a.update({"scenario": s, "conn": i, "req": 0})
+            b.update({"scenario": s, "conn": i, "req": 1, "uid": a["uid"], "is_admin": a["is_admin"], "dest": a["dest"], "after": len(cases)})
+            cases += [a, b]
+            conns.append(e2e.conn([e2e.req(case_request(a), ops_after=[{"op": "sleep_ms", "ms": rng.choice([2300, 2600, 3100])}]), case_request(b)],
+                                  audit=e2e.audit(a["dest"], uid=a["uid"], is_admin=a["is_admin"]), id=i))
+        scenarios.append(e2e.scenario("c05-spaced-%d" % s, conns, key=key, concurrent=True))
     results = e2e.run_scenarios(ctx, scenarios, timeout=900)
     ctx.log("e2e: %d scenarios, %d requests" % (len(scenarios), len(cases)))
 
@@ -206,6 +254,7 @@ def run(ctx):
                     seen[tags[0]] = (host, m)
     exprs, eval_cases = [], []
     not_relayed_after_close = [0]
+    n_spaced = [0]
     for c in cases:
         got = seen.get(c["tag"])
         replay = {"scenario": e2e.jsonable(scenarios[c["scenario"]]), "tag": c["tag"],
@@ -227,7 +276,14 @@ def run(ctx):
         c["impl_headers"] = hs
         if host != c["dest"]:
             failures.append({"case": replay, "why": "request relayed to %s instead of %s" % (host, c["dest"]), "impl": hs})
-        why = prop_c05(c, hs, now_t)
+        c["answered_t"] = answered_at(results, c)
+        why = prop_c05(c, hs, now_t, c["answered_t"])
+        if why is None and "after" in c and cases[c["after"]].get("impl_headers"):
+            p0 = cases[c["after"]]
+            d0, d1 = rc.values(p0["impl_headers"], DATE), rc.values(hs, DATE)
+            if len(d0) == 1 and len(d1) == 1:
+                why = prop_c05_fresh(d0[0], d1[0], p0.get("answered_t"), c["answered_t"])
+                n_spaced[0] += 1
         if why:
             failures.append({"case": replay, "why": why, "impl": hs})
         dates = rc.values(hs, DATE)
@@ -267,7 +323,10 @@ def run(ctx):
                                                                   "string_to_sign": bytes(sig_input).decode("latin-1")},
                                       "impl": auths})
                 continue
-        if mh != hs:
+        # compared name by name (all values of a name, in order): the order of DIFFERENT names on the wire is not something the
+        # property or its observers depend on (e.g. swapping the two inserts is harmless); Headers.others_order stays a theorem
+        # about the model only
+        if by_name(mh) != by_name(hs):
             disagreements.append({"case": replay, "model": mh, "impl": hs})
 
     # ---------------- coverage ----------------
@@ -299,6 +358,7 @@ def run(ctx):
                                "hop_by_hop_headers_naming_owned": sum(1 for c in cases if c["hop"]),
                                "second_request_after_host_closed_upstream": sum(1 for c in cases if c["after_close"]),
                                "of_which_refused_502_503_unrelayed": not_relayed_after_close[0],
+                               "keep_alive_pairs_spaced_by_2s_or_more_compared": n_spaced[0],
                                "exempt_targets": sum(1 for c in cases if rc.is_exempt(c["method"], c["target"])),
                                "owned_header_multiplicities": dict(sorted(dist.items(), key=lambda kv: -kv[1])[:12])},
     })
@@ -307,7 +367,9 @@ def run(ctx):
         "of a name) are definitions of the model, tied to the real library by this run only",
         "the signature itself (HMAC-SHA256) is recomputed with Python's hmac over the model's string-to-sign; C04 owns the canonical string",
         "header values with bytes >= 0x80 are not generated here (they make the signing code panic: C13 / finding F7)",
-        "the date check is: RFC 1123 GMT, within 24 h of this machine's clock, not a client-supplied value",
+        "the date check is: RFC 1123 GMT, within 24 h of this machine's clock, not a client-supplied value, within 3 s of the Date "
+        "header hyper's server stamps on the proxy's answer to the same request (same clock), and strictly later than the date of the "
+        "previous request of the same keep-alive connection when the two answers are >= 2 s apart",
     ]
     verdict(ctx, proofs_ok, detail, disagreements, failures,
             corr_name="Headers.proxy_forward vs ProxyServer::handle_new_http_request/handle_request_with_signature (header lines at the mock host)")
